@@ -23,21 +23,21 @@ func TestMain(m *testing.M) {
 
 // MSECase: one handshake plus a data exchange.
 type MSECase struct {
-	Pairing  string `json:"pairing"` // rain-rain | rain-ref (rain initiates) | ref-rain (reference initiates)
-	KeyA     []byte `json:"key_a"`
-	KeyB     []byte `json:"key_b"`  // receiver's key (differs from KeyA in wrong-key cases)
-	Provide  uint32 `json:"provide"`
-	Policy   int    `json:"policy"` // receiver: 0 prefer RC4, 1 prefer plaintext, 2 RC4 only, 3 plaintext only
-	Pad1     int    `json:"pad1"`   // reference side's first pad (PadA or PadB)
-	Pad2     int    `json:"pad2"`   // reference side's second pad (PadC or PadD)
-	IALen    int    `json:"ia_len"`
-	AReads   []int  `json:"a_reads"`
-	BReads   []int  `json:"b_reads"`
-	AtoB     []int  `json:"a_to_b"` // sizes of writes after the handshake
-	BtoA     []int  `json:"b_to_a"`
-	SecretA  []byte `json:"secret_a"`
-	SecretB  []byte `json:"secret_b"`
-	Tail     int    `json:"tail_prefix"` // reference side: last bytes of its first pad mimic a prefix of the sync marker
+	Pairing string `json:"pairing"` // rain-rain | rain-ref (rain initiates) | ref-rain (reference initiates)
+	KeyA    []byte `json:"key_a"`
+	KeyB    []byte `json:"key_b"` // receiver's key (differs from KeyA in wrong-key cases)
+	Provide uint32 `json:"provide"`
+	Policy  int    `json:"policy"` // receiver: 0 prefer RC4, 1 prefer plaintext, 2 RC4 only, 3 plaintext only
+	Pad1    int    `json:"pad1"`   // reference side's first pad (PadA or PadB)
+	Pad2    int    `json:"pad2"`   // reference side's second pad (PadC or PadD)
+	IALen   int    `json:"ia_len"`
+	AReads  []int  `json:"a_reads"`
+	BReads  []int  `json:"b_reads"`
+	AtoB    []int  `json:"a_to_b"` // sizes of writes after the handshake
+	BtoA    []int  `json:"b_to_a"`
+	SecretA []byte `json:"secret_a"`
+	SecretB []byte `json:"secret_b"`
+	Tail    int    `json:"tail_prefix"` // reference side: last bytes of its first pad mimic a prefix of the sync marker
 }
 
 var padEdges = []int{0, 1, 2, 7, 8, 19, 20, 95, 96, 255, 256, 500, 510, 511, 512}
